@@ -62,6 +62,15 @@ impl LspSession {
         }
     }
 
+    /// didSave of an open document (the server has nothing to do for it: the editor's buffer stays the truth)
+    pub fn save(&mut self, name: &str) {
+        if self.opened.contains(name) {
+            let uri = self.tw.uri(name);
+            self.c.notify("textDocument/didSave", serde_json::json!({"textDocument": {"uri": uri}}));
+            self.c.sent_notifications -= 1;
+        }
+    }
+
     /// like `touch` but without waiting
     pub fn touch_async(&mut self, name: &str, text: &str) {
         let uri = self.tw.uri(name);
